@@ -242,6 +242,9 @@ func constBytes(v ssa.Value) (string, bool) {
 }
 
 func c05r4(c *core.Ctx) {
+	if f := c.P.Func("crypto", "(*secureSession).Decrypt"); f != nil {
+		errorTestPolarity(c, f, nil)
+	}
 	p := c.P
 	// wrapper: every non-nil plaintext is the first result of Open returned with its error
 	w := p.Func("crypto/chacha20poly1305", "DecryptAndVerify")
